@@ -89,6 +89,9 @@ tracefunc(PyObject *obj, PyFrameObject *frame, int what, PyObject *arg)
     self->ticks++;
 
     if (self->limit >= 0 && self->ticks > self->limit) {
+        /* Raise once: CPython 3.12 keeps the trace function installed, and
+           the lines run while unwinding must not raise again. */
+        self->limit = -1;
         PyErr_SetNone(self->budget_exc);
         return -1;
     }
